@@ -949,7 +949,8 @@ public:
         }
     }
 
-    bool serialisable() const { return ran_ || user_state_ || integ_ == PLAIN || nresults() != 0; }
+    // (a default VEGAS checkpoint has no grid before its first run; everything else has a text)
+    bool serialisable() const { return ran_ || user_state_ || integ_ != VEGAS || nresults() != 0; }
 
     ChkptView view() const override
     {
@@ -1009,8 +1010,9 @@ public:
                 }
                 v.results.push_back(rv);
             }
-            if (!assembled_ && (n != 0 || ran_ || user_state_))
+            if (!assembled_)
             {
+                // (for a default checkpoint that never ran this is the empty vector)
                 v.has_next = true;
                 for (T a : mc_->channel_weights()) v.next.push_back(a);
             }
